@@ -12,8 +12,158 @@ func CompareAndSwapInt32(addr *int32, old, new int32) bool {
 	vsched.Yield("cas'")
 	return r
 }
-func LoadInt32(addr *int32) int32       { vsched.Yield("load"); return ra.LoadInt32(addr) }
-func StoreInt32(addr *int32, v int32)   { vsched.Yield("store"); ra.StoreInt32(addr, v); vsched.Yield("store'") }
-func SwapInt32(addr *int32, v int32) int32 { vsched.Yield("swap"); r := ra.SwapInt32(addr, v); vsched.Yield("swap'"); return r }
-func AddInt32(addr *int32, d int32) int32  { vsched.Yield("add"); return ra.AddInt32(addr, d) }
-func VerifGo(fn func()) { vsched.Go(fn) }
+func LoadInt32(addr *int32) int32 { vsched.Yield("load"); return ra.LoadInt32(addr) }
+func StoreInt32(addr *int32, v int32) {
+	vsched.Yield("store")
+	ra.StoreInt32(addr, v)
+	vsched.Yield("store'")
+}
+func SwapInt32(addr *int32, v int32) int32 {
+	vsched.Yield("swap")
+	r := ra.SwapInt32(addr, v)
+	vsched.Yield("swap'")
+	return r
+}
+func AddInt32(addr *int32, d int32) int32 { vsched.Yield("add"); return ra.AddInt32(addr, d) }
+func VerifGo(fn func())                   { vsched.Go(fn) }
+
+// ---- the typed API of sync/atomic, with the same scheduling points as the functions above ----
+
+func LoadInt64(addr *int64) int64 { vsched.Yield("load"); return ra.LoadInt64(addr) }
+func StoreInt64(addr *int64, v int64) {
+	vsched.Yield("store")
+	ra.StoreInt64(addr, v)
+	vsched.Yield("store'")
+}
+func AddInt64(addr *int64, d int64) int64 { vsched.Yield("add"); return ra.AddInt64(addr, d) }
+func SwapInt64(addr *int64, v int64) int64 {
+	vsched.Yield("swap")
+	r := ra.SwapInt64(addr, v)
+	vsched.Yield("swap'")
+	return r
+}
+func CompareAndSwapInt64(addr *int64, old, new int64) bool {
+	vsched.Yield("cas")
+	r := ra.CompareAndSwapInt64(addr, old, new)
+	vsched.Yield("cas'")
+	return r
+}
+func LoadUint32(addr *uint32) uint32 { vsched.Yield("load"); return ra.LoadUint32(addr) }
+func StoreUint32(addr *uint32, v uint32) {
+	vsched.Yield("store")
+	ra.StoreUint32(addr, v)
+	vsched.Yield("store'")
+}
+func AddUint32(addr *uint32, d uint32) uint32 { vsched.Yield("add"); return ra.AddUint32(addr, d) }
+func CompareAndSwapUint32(addr *uint32, old, new uint32) bool {
+	vsched.Yield("cas")
+	r := ra.CompareAndSwapUint32(addr, old, new)
+	vsched.Yield("cas'")
+	return r
+}
+func LoadUint64(addr *uint64) uint64 { vsched.Yield("load"); return ra.LoadUint64(addr) }
+func StoreUint64(addr *uint64, v uint64) {
+	vsched.Yield("store")
+	ra.StoreUint64(addr, v)
+	vsched.Yield("store'")
+}
+func AddUint64(addr *uint64, d uint64) uint64 { vsched.Yield("add"); return ra.AddUint64(addr, d) }
+
+type Bool struct{ v ra.Bool }
+
+func (x *Bool) Load() bool   { vsched.Yield("load"); return x.v.Load() }
+func (x *Bool) Store(b bool) { vsched.Yield("store"); x.v.Store(b); vsched.Yield("store'") }
+func (x *Bool) Swap(b bool) bool {
+	vsched.Yield("swap")
+	r := x.v.Swap(b)
+	vsched.Yield("swap'")
+	return r
+}
+func (x *Bool) CompareAndSwap(old, new bool) bool {
+	vsched.Yield("cas")
+	r := x.v.CompareAndSwap(old, new)
+	vsched.Yield("cas'")
+	return r
+}
+
+type Int32 struct{ v ra.Int32 }
+
+func (x *Int32) Load() int32       { vsched.Yield("load"); return x.v.Load() }
+func (x *Int32) Store(n int32)     { vsched.Yield("store"); x.v.Store(n); vsched.Yield("store'") }
+func (x *Int32) Add(d int32) int32 { vsched.Yield("add"); return x.v.Add(d) }
+func (x *Int32) Swap(n int32) int32 {
+	vsched.Yield("swap")
+	r := x.v.Swap(n)
+	vsched.Yield("swap'")
+	return r
+}
+func (x *Int32) CompareAndSwap(old, new int32) bool {
+	vsched.Yield("cas")
+	r := x.v.CompareAndSwap(old, new)
+	vsched.Yield("cas'")
+	return r
+}
+
+type Int64 struct{ v ra.Int64 }
+
+func (x *Int64) Load() int64       { vsched.Yield("load"); return x.v.Load() }
+func (x *Int64) Store(n int64)     { vsched.Yield("store"); x.v.Store(n); vsched.Yield("store'") }
+func (x *Int64) Add(d int64) int64 { vsched.Yield("add"); return x.v.Add(d) }
+func (x *Int64) Swap(n int64) int64 {
+	vsched.Yield("swap")
+	r := x.v.Swap(n)
+	vsched.Yield("swap'")
+	return r
+}
+func (x *Int64) CompareAndSwap(old, new int64) bool {
+	vsched.Yield("cas")
+	r := x.v.CompareAndSwap(old, new)
+	vsched.Yield("cas'")
+	return r
+}
+
+type Uint32 struct{ v ra.Uint32 }
+
+func (x *Uint32) Load() uint32        { vsched.Yield("load"); return x.v.Load() }
+func (x *Uint32) Store(n uint32)      { vsched.Yield("store"); x.v.Store(n); vsched.Yield("store'") }
+func (x *Uint32) Add(d uint32) uint32 { vsched.Yield("add"); return x.v.Add(d) }
+func (x *Uint32) CompareAndSwap(old, new uint32) bool {
+	vsched.Yield("cas")
+	r := x.v.CompareAndSwap(old, new)
+	vsched.Yield("cas'")
+	return r
+}
+
+type Uint64 struct{ v ra.Uint64 }
+
+func (x *Uint64) Load() uint64        { vsched.Yield("load"); return x.v.Load() }
+func (x *Uint64) Store(n uint64)      { vsched.Yield("store"); x.v.Store(n); vsched.Yield("store'") }
+func (x *Uint64) Add(d uint64) uint64 { vsched.Yield("add"); return x.v.Add(d) }
+func (x *Uint64) CompareAndSwap(old, new uint64) bool {
+	vsched.Yield("cas")
+	r := x.v.CompareAndSwap(old, new)
+	vsched.Yield("cas'")
+	return r
+}
+
+type Pointer[T any] struct{ v ra.Pointer[T] }
+
+func (x *Pointer[T]) Load() *T   { vsched.Yield("load"); return x.v.Load() }
+func (x *Pointer[T]) Store(p *T) { vsched.Yield("store"); x.v.Store(p); vsched.Yield("store'") }
+func (x *Pointer[T]) Swap(p *T) *T {
+	vsched.Yield("swap")
+	r := x.v.Swap(p)
+	vsched.Yield("swap'")
+	return r
+}
+func (x *Pointer[T]) CompareAndSwap(old, new *T) bool {
+	vsched.Yield("cas")
+	r := x.v.CompareAndSwap(old, new)
+	vsched.Yield("cas'")
+	return r
+}
+
+type Value struct{ v ra.Value }
+
+func (x *Value) Load() any   { vsched.Yield("load"); return x.v.Load() }
+func (x *Value) Store(v any) { vsched.Yield("store"); x.v.Store(v); vsched.Yield("store'") }
